@@ -72,6 +72,7 @@ let table : (string * (sexp -> sexp)) list = [
   ("C03", run_C03);
   ("C04", run_C04);
   ("C09", run_C09);
+  ("C15", run_C15);
 ]
 
 let () =
